@@ -273,3 +273,272 @@ Example C15_sized_satisfiable :
   let b : @bl_ws QcS := mkBlWs jv jv jv jv (fun _ => jv) (fun _ => jv) in
   id_sized 2 3 w /\ bl_sized 2 b.
 Proof. split; [intros i Hi; split; reflexivity | split; reflexivity]. Qed.
+
+(* =====================================================================================
+   OBJECTS other than a bare Krylov solver (proofs: ReuseProofs.v, ReuseProofs2.v, ReuseProofs3.v).
+   Every mutable member of the C++ object is explicit state of the model; a call HISTORY is a fold
+   that threads this state; "reusable" = the observable result of a call on the state reached after
+   ANY history equals the result of the same call on a fresh state.  No algebraic law is used
+   (the statements hold for IEEE floats including NaN); is_zero(zero) = true is needed where a
+   backend primitive overwrites its output through the beta = 0 branch. *)
+From Amgcl Require Import Crs Direct DirectProofs Cheby Amg AmgExec AmgProofs AmgProofs2 AmgProofs3
+  ReuseProofs ReuseProofs2 ReuseProofs3 ReuseProofs4.
+
+(* ---- solver::skyline_lu (skyline_lu.hpp:178-199; the member y, line 218, is scratch) ----
+   [sky_history f y hist] = content of y after the solves hist = [(rhs_1, x_1); ...] *)
+Theorem C15_skyline_reuse (S : Scalar) (f : skyline S) (rhs x y0 yfresh : vec S) (hist : list (vec S * vec S)) :
+  profile_wf (sk_n f) (sk_ptr f) -> length y0 = sk_n f -> length yfresh = sk_n f ->
+  fst (sky_solve f rhs x (sky_history f y0 hist)) = fst (sky_solve f rhs x yfresh).
+Proof. exact (skyline_reuse f rhs x y0 yfresh hist). Qed.
+Print Assumptions C15_skyline_reuse.
+
+(* ---- relaxation::chebyshev (chebyshev.hpp:143-204; members p, r, line 173, are scratch) ----
+   object state = (p, r); [cheby_call] = solve() returning x and the new state.  Law-free (the
+   ring-law version C06_cheby_workspace_independent is pointwise only): step k = 0 overwrites r by
+   residual() and p by axpby(alpha, r, zero, p). *)
+Theorem C15_chebyshev_state_independent (S : Scalar) (Z : is_zero (@s0 S) = true) (c d : S) (M : option (vec S))
+  (degree : nat) (A : crs S) (st1 st2 : vec S * vec S) (b x : vec S) :
+  (forall m, M = Some m -> length m = nrows A) -> length b = nrows A -> length x = nrows A ->
+  cheby_state_ok A st1 -> cheby_state_ok A st2 ->
+  fst (cheby_call (c, d, M) degree A st1 b x) = fst (cheby_call (c, d, M) degree A st2 b x) /\
+  cheby_state_ok A (snd (cheby_call (c, d, M) degree A st1 b x)).
+Proof. exact (cheby_call_state_independent_and_ok Z c d M degree A st1 st2 b x). Qed.
+Print Assumptions C15_chebyshev_state_independent.
+
+(* apply_pre / apply_post (x is used as it comes) after any history of sweeps *)
+Theorem C15_chebyshev_reuse (S : Scalar) (Z : is_zero (@s0 S) = true) (c d : S) (M : option (vec S)) (degree : nat)
+  (A : crs S) (st0 stfresh : vec S * vec S) (hist : list (vec S * vec S)) (b x : vec S) :
+  (forall m, M = Some m -> length m = nrows A) ->
+  Forall (fun bx => length (fst bx) = nrows A /\ length (snd bx) = nrows A) hist ->
+  cheby_state_ok A st0 -> cheby_state_ok A stfresh -> length b = nrows A -> length x = nrows A ->
+  fst (cheby_call (c, d, M) degree A (cheby_history (c, d, M) degree A st0 hist) b x) =
+  fst (cheby_call (c, d, M) degree A stfresh b x).
+Proof. exact (cheby_reuse Z c d M degree A st0 stfresh hist b x). Qed.
+Print Assumptions C15_chebyshev_reuse.
+
+(* apply() = as_preconditioner<chebyshev>::apply: x is cleared first, its old content is irrelevant too *)
+Theorem C15_chebyshev_apply_reuse (S : Scalar) (Z : is_zero (@s0 S) = true) (c d : S) (M : option (vec S)) (degree : nat)
+  (A : crs S) (st0 stfresh : vec S * vec S) (hist : list (vec S * vec S)) (b x1 x2 : vec S) :
+  (forall m, M = Some m -> length m = nrows A) ->
+  Forall (fun bx => length (fst bx) = nrows A /\ length (snd bx) = nrows A) hist ->
+  cheby_state_ok A st0 -> cheby_state_ok A stfresh -> length b = nrows A -> length x1 = nrows A -> length x2 = nrows A ->
+  fst (cheby_call (c, d, M) degree A (cheby_history (c, d, M) degree A st0 hist) b (vclear x1)) =
+  fst (cheby_call (c, d, M) degree A stfresh b (vclear x2)).
+Proof. exact (cheby_apply_reuse_history Z c d M degree A st0 stfresh hist b x1 x2). Qed.
+Print Assumptions C15_chebyshev_apply_reuse.
+
+(* the object call is the sweep of Cheby.v (C06) *)
+Theorem C15_chebyshev_call_is_sweep (S : Scalar) (cdM : S * S * option (vec S)) degree (A : crs S) (p r b x : vec S) :
+  fst (cheby_call cdM degree A (p, r) b x) = cheby_sweep cdM degree A b x p r.
+Proof. exact (cheby_call_is_sweep cdM degree A p r b x). Qed.
+
+(* ---- amg (amg.hpp): per-level vectors f, u, t survive apply() AND rebuild() (level::rebuild, amg.hpp:426-458,
+   replaces matrices, smoothers and the coarse solver only).  After any rebuilds the object, with the scratch it
+   had, applies like a hierarchy built afresh from the last matrix with the same transfer operators. *)
+Theorem C15_amg_reuse_after_rebuild (S : Scalar) (Z : is_zero (@s0 S) = true) ce dc ml sc ts (M : crs S)
+  (Ms : list (crs S)) (M' : crs S) k npre npost ncycle pre_cycles :
+  Forall (fun X => nrows X = nrows M) Ms -> nrows M' = nrows M ->
+  let ls0 := amg_init ce dc ml (coarse_op_of sc) ts M in
+  let ls' := amg_rebuild (coarse_op_of sc) (fold_left (amg_rebuild (coarse_op_of sc)) Ms ls0) M' in
+  let lfresh := amg_init ce dc ml (coarse_op_of sc) ts M' in
+  forall scr scrf rhs x1 x2,
+  scratch_wf (std_levels k ls0) scr -> scratch_wf (std_levels k lfresh) scrf ->
+  length rhs = nrows M -> length x1 = nrows M -> length x2 = nrows M ->
+  fst (apply npre npost ncycle pre_cycles (std_levels k ls') scr rhs x1) =
+  fst (apply npre npost ncycle pre_cycles (std_levels k lfresh) scrf rhs x2).
+Proof. exact (amg_reuse_after_rebuild Z ce dc ml sc ts M Ms M' k npre npost ncycle pre_cycles). Qed.
+Print Assumptions C15_amg_reuse_after_rebuild.
+
+(* any interleaving of rebuilds and applies: [amg_life] threads (hierarchy, scratch) through the events,
+   [last_matrix] is the matrix of the last rebuild (M if none) *)
+Theorem C15_amg_reuse_any_life (S : Scalar) (Z : is_zero (@s0 S) = true) ce dc ml sc ts (M : crs S) k
+  npre npost ncycle pre_cycles (evs : list (@amg_event S)) scr0 scrf rhs x1 x2 :
+  Forall (event_ok (nrows M)) evs ->
+  scratch_wf (std_levels k (amg_init ce dc ml (coarse_op_of sc) ts M)) scr0 ->
+  let obj := amg_life sc k npre npost ncycle pre_cycles (amg_init ce dc ml (coarse_op_of sc) ts M) scr0 evs in
+  let lfresh := amg_init ce dc ml (coarse_op_of sc) ts (last_matrix M evs) in
+  scratch_wf (std_levels k lfresh) scrf ->
+  length rhs = nrows M -> length x1 = nrows M -> length x2 = nrows M ->
+  fst (apply npre npost ncycle pre_cycles (std_levels k (fst obj)) (snd obj) rhs x1) =
+  fst (apply npre npost ncycle pre_cycles (std_levels k lfresh) scrf rhs x2).
+Proof. exact (amg_reuse_any_life Z ce dc ml sc ts M k npre npost ncycle pre_cycles evs scr0 scrf rhs x1 x2). Qed.
+Print Assumptions C15_amg_reuse_any_life.
+
+(* ---- make_solver<Precond, Solver> (make_solver.hpp:118-145) = (preconditioner object, solver object) ----
+   The Krylov models take the preconditioner as a PURE function.  Here it is a STATEFUL operator
+   [sprecond] = state -> rhs -> old content of the output vector -> (new output, new state), threaded through
+   the solve in program order by the state-passing models cg_sp, richardson_sp, bicgstab_sp, gmres_sp,
+   fgmres_sp (same text as Krylov.v, every [P v] replaced by a call of the operator on the member vector
+   that receives the result).  [simulates n Inv sp pf]: on vectors of the allocated length n, in every state
+   satisfying Inv, sp returns pf r and re-establishes Inv. *)
+Theorem C15_stateful_preconditioner_cg (S : Scalar) (PS : Type) n (Inv : PS -> Prop) (sp : sprecond) (pf A : vec S -> vec S)
+  prm (f x0 : vec S) (ws : cg_ws) (ps : PS) :
+  simulates n Inv sp pf -> (forall v, length v = n -> length (A v) = n) -> length f = n -> length x0 = n ->
+  cg_sized n ws -> Inv ps ->
+  fst (fst (cg_sp A sp prm f x0 ws ps)) = fst (cg A pf prm f x0 ws) /\
+  snd (fst (cg_sp A sp prm f x0 ws ps)) = snd (cg A pf prm f x0 ws) /\
+  Inv (snd (cg_sp A sp prm f x0 ws ps)) /\ cg_sized n (snd (fst (cg_sp A sp prm f x0 ws ps))).
+Proof. exact (cg_sp_simulated n Inv sp pf A prm f x0 ws ps). Qed.
+Print Assumptions C15_stateful_preconditioner_cg.
+
+(* with a stateless preconditioner the state-passing text IS the pure model (link between the two texts) *)
+Theorem C15_state_passing_models_are_the_pure_models (S : Scalar) (A P : vec S -> vec S) prm (f x0 : vec S) :
+  (forall ws u, cg_sp A (fun (_ : unit) r _ => (P r, tt)) prm f x0 ws u = (cg A P prm f x0 ws, tt)) /\
+  (forall ws u, richardson_sp A (fun (_ : unit) r _ => (P r, tt)) prm f x0 ws u = (richardson A P prm f x0 ws, tt)) /\
+  (forall ws u, bicgstab_sp A (fun (_ : unit) r _ => (P r, tt)) prm f x0 ws u = (bicgstab A P prm f x0 ws, tt)) /\
+  (forall ws u, gmres_sp A (fun (_ : unit) r _ => (P r, tt)) prm f x0 ws u = (gmres A P prm f x0 ws, tt)) /\
+  (forall ws u, fgmres_sp A (fun (_ : unit) r _ => (P r, tt)) prm f x0 ws u = (fgmres A P prm f x0 ws, tt)).
+Proof. exact (all_sp_stateless A P prm f x0). Qed.
+Print Assumptions C15_state_passing_models_are_the_pure_models.
+
+(* reuse of the composite object, ANY simulated stateful preconditioner: object state = (solver workspace,
+   preconditioner state); a call [kcall] = (A, prm, rhs, x0) (both operator() overloads of make_solver);
+   [call_ok n c]: A keeps length n, rhs and x0 have length n *)
+Theorem C15_make_solver_reuse_any_preconditioner_cg (S : Scalar) (PS : Type) n (Inv : PS -> Prop) (sp : sprecond)
+  (pf : vec S -> vec S) (hist : list (@kcall S)) (c : @kcall S) (ws0 wsf : cg_ws) (ps0 psf : PS) :
+  simulates n Inv sp pf -> Forall (call_ok n) hist -> call_ok n c ->
+  cg_sized n ws0 -> Inv ps0 -> cg_sized n wsf -> Inv psf ->
+  fst (cg_obj_call sp c (cg_obj_history sp hist (ws0, ps0))) = fst (cg_obj_call sp c (wsf, psf)).
+Proof. exact (cg_object_reuse n Inv sp pf hist c ws0 wsf ps0 psf). Qed.
+Theorem C15_make_solver_reuse_any_preconditioner_richardson (S : Scalar) (PS : Type) n (Inv : PS -> Prop) (sp : sprecond)
+  (pf : vec S -> vec S) (hist : list (@kcall S)) (c : @kcall S) (ws0 wsf : ri_ws) (ps0 psf : PS) :
+  simulates n Inv sp pf -> Forall (call_ok n) hist -> call_ok n c ->
+  ri_sized n ws0 -> Inv ps0 -> ri_sized n wsf -> Inv psf ->
+  fst (ri_obj_call sp c (ri_obj_history sp hist (ws0, ps0))) = fst (ri_obj_call sp c (wsf, psf)).
+Proof. exact (richardson_object_reuse n Inv sp pf hist c ws0 wsf ps0 psf). Qed.
+Theorem C15_make_solver_reuse_any_preconditioner_bicgstab (S : Scalar) (PS : Type) n (Inv : PS -> Prop) (sp : sprecond)
+  (pf : vec S -> vec S) (hist : list (@kcall S)) (c : @kcall S) (ws0 wsf : bs_ws) (ps0 psf : PS) :
+  is_zero (@s0 S) = true -> simulates n Inv sp pf -> Forall (call_ok n) hist -> call_ok n c ->
+  bs_sized n ws0 -> Inv ps0 -> bs_sized n wsf -> Inv psf ->
+  fst (bs_obj_call sp c (bs_obj_history sp hist (ws0, ps0))) = fst (bs_obj_call sp c (wsf, psf)).
+Proof. exact (bicgstab_object_reuse n Inv sp pf hist c ws0 wsf ps0 psf). Qed.
+(* GMRES(M), FGMRES(M): M = the restart length the object was allocated for; every call has 1 <= prm.M <= M *)
+Theorem C15_make_solver_reuse_any_preconditioner_gmres (S : Scalar) (PS : Type) n M (Inv : PS -> Prop) (sp : sprecond)
+  (pf : vec S -> vec S) (hist : list (@kcall S)) (c : @kcall S) (ws0 wsf : gm_ws) (ps0 psf : PS) :
+  is_zero (@s0 S) = true -> simulates n Inv sp pf -> Forall (gm_call_ok n M) hist -> gm_call_ok n M c ->
+  gm_sized n M ws0 -> Inv ps0 -> gm_sized n M wsf -> Inv psf ->
+  fst (gm_obj_call sp c (gm_obj_history sp hist (ws0, ps0))) = fst (gm_obj_call sp c (wsf, psf)).
+Proof. exact (gmres_object_reuse n M Inv sp pf hist c ws0 wsf ps0 psf). Qed.
+Theorem C15_make_solver_reuse_any_preconditioner_fgmres (S : Scalar) (PS : Type) n M (Inv : PS -> Prop) (sp : sprecond)
+  (pf : vec S -> vec S) (hist : list (@kcall S)) (c : @kcall S) (ws0 wsf : gm_ws) (ps0 psf : PS) :
+  simulates n Inv sp pf -> Forall (gm_call_ok n M) hist -> gm_call_ok n M c ->
+  fg_sized n M ws0 -> Inv ps0 -> fg_sized n M wsf -> Inv psf ->
+  fst (fg_obj_call sp c (fg_obj_history sp hist (ws0, ps0))) = fst (fg_obj_call sp c (wsf, psf)).
+Proof. exact (fgmres_object_reuse n M Inv sp pf hist c ws0 wsf ps0 psf). Qed.
+Print Assumptions C15_make_solver_reuse_any_preconditioner_fgmres.
+
+(* amg::apply with its scratch IS such an operator (C02 history independence): invariant = scratch_wf *)
+Theorem C15_amg_is_a_simulated_stateful_preconditioner (S : Scalar) npre npost ncycle pre_cycles (lvls : list (@level S))
+  (scr0 : list (@scratch S)) :
+  is_zero (@s0 S) = true -> hier_wf lvls -> lvls <> [] -> scratch_wf lvls scr0 ->
+  simulates (top_n lvls) (scratch_wf lvls) (amg_sp npre npost ncycle pre_cycles lvls)
+            (fun r => fst (apply npre npost ncycle pre_cycles lvls scr0 r (vzero (top_n lvls)))).
+Proof. exact (amg_simulates npre npost ncycle pre_cycles lvls scr0). Qed.
+Print Assumptions C15_amg_is_a_simulated_stateful_preconditioner.
+
+(* make_solver<amg, cg>: a call after ANY history of calls (other right-hand sides, guesses, parameters, system
+   matrices) = the call on a fresh object (any sized workspace, any allocated scratch) *)
+Theorem C15_make_solver_reuse (S : Scalar) npre npost ncycle pre_cycles (lvls : list (@level S)) (hist : list (@kcall S)) (c : @kcall S)
+  (ws0 wsf : cg_ws) (scr0 scrf : list (@scratch S)) :
+  is_zero (@s0 S) = true -> hier_wf lvls -> lvls <> [] ->
+  Forall (call_ok (top_n lvls)) hist -> call_ok (top_n lvls) c ->
+  cg_sized (top_n lvls) ws0 -> scratch_wf lvls scr0 -> cg_sized (top_n lvls) wsf -> scratch_wf lvls scrf ->
+  fst (cg_obj_call (amg_sp npre npost ncycle pre_cycles lvls) c
+         (cg_obj_history (amg_sp npre npost ncycle pre_cycles lvls) hist (ws0, scr0))) =
+  fst (cg_obj_call (amg_sp npre npost ncycle pre_cycles lvls) c (wsf, scrf)).
+Proof. exact (make_solver_amg_cg_reuse npre npost ncycle pre_cycles lvls hist c ws0 wsf scr0 scrf). Qed.
+Print Assumptions C15_make_solver_reuse.
+
+(* ... and it computes what the pure model computes with the preconditioner function of ANY allocated scratch *)
+Theorem C15_make_solver_is_the_pure_model (S : Scalar) npre npost ncycle pre_cycles (lvls : list (@level S)) (hist : list (@kcall S))
+  (c : @kcall S) (ws0 junk : cg_ws) (scr0 scrp : list (@scratch S)) :
+  is_zero (@s0 S) = true -> hier_wf lvls -> lvls <> [] ->
+  Forall (call_ok (top_n lvls)) hist -> call_ok (top_n lvls) c ->
+  cg_sized (top_n lvls) ws0 -> scratch_wf lvls scr0 -> scratch_wf lvls scrp ->
+  fst (cg_obj_call (amg_sp npre npost ncycle pre_cycles lvls) c
+         (cg_obj_history (amg_sp npre npost ncycle pre_cycles lvls) hist (ws0, scr0))) =
+  fst (cg (kc_A c) (fun r => fst (apply npre npost ncycle pre_cycles lvls scrp r (vzero (top_n lvls))))
+          (kc_prm c) (kc_f c) (kc_x0 c) junk).
+Proof. exact (make_solver_amg_cg_is_pure npre npost ncycle pre_cycles lvls hist c ws0 junk scr0 scrp). Qed.
+Print Assumptions C15_make_solver_is_the_pure_model.
+
+Theorem C15_make_solver_reuse_richardson (S : Scalar) npre npost ncycle pre_cycles (lvls : list (@level S)) (hist : list (@kcall S))
+  (c : @kcall S) (ws0 wsf : ri_ws) (scr0 scrf : list (@scratch S)) :
+  is_zero (@s0 S) = true -> hier_wf lvls -> lvls <> [] ->
+  Forall (call_ok (top_n lvls)) hist -> call_ok (top_n lvls) c ->
+  ri_sized (top_n lvls) ws0 -> scratch_wf lvls scr0 -> ri_sized (top_n lvls) wsf -> scratch_wf lvls scrf ->
+  fst (ri_obj_call (amg_sp npre npost ncycle pre_cycles lvls) c
+         (ri_obj_history (amg_sp npre npost ncycle pre_cycles lvls) hist (ws0, scr0))) =
+  fst (ri_obj_call (amg_sp npre npost ncycle pre_cycles lvls) c (wsf, scrf)).
+Proof. exact (make_solver_amg_richardson_reuse npre npost ncycle pre_cycles lvls hist c ws0 wsf scr0 scrf). Qed.
+Theorem C15_make_solver_reuse_bicgstab (S : Scalar) npre npost ncycle pre_cycles (lvls : list (@level S)) (hist : list (@kcall S))
+  (c : @kcall S) (ws0 wsf : bs_ws) (scr0 scrf : list (@scratch S)) :
+  is_zero (@s0 S) = true -> hier_wf lvls -> lvls <> [] ->
+  Forall (call_ok (top_n lvls)) hist -> call_ok (top_n lvls) c ->
+  bs_sized (top_n lvls) ws0 -> scratch_wf lvls scr0 -> bs_sized (top_n lvls) wsf -> scratch_wf lvls scrf ->
+  fst (bs_obj_call (amg_sp npre npost ncycle pre_cycles lvls) c
+         (bs_obj_history (amg_sp npre npost ncycle pre_cycles lvls) hist (ws0, scr0))) =
+  fst (bs_obj_call (amg_sp npre npost ncycle pre_cycles lvls) c (wsf, scrf)).
+Proof. exact (make_solver_amg_bicgstab_reuse npre npost ncycle pre_cycles lvls hist c ws0 wsf scr0 scrf). Qed.
+Theorem C15_make_solver_reuse_gmres (S : Scalar) npre npost ncycle pre_cycles (lvls : list (@level S)) M (hist : list (@kcall S))
+  (c : @kcall S) (ws0 wsf : gm_ws) (scr0 scrf : list (@scratch S)) :
+  is_zero (@s0 S) = true -> hier_wf lvls -> lvls <> [] ->
+  Forall (gm_call_ok (top_n lvls) M) hist -> gm_call_ok (top_n lvls) M c ->
+  gm_sized (top_n lvls) M ws0 -> scratch_wf lvls scr0 -> gm_sized (top_n lvls) M wsf -> scratch_wf lvls scrf ->
+  fst (gm_obj_call (amg_sp npre npost ncycle pre_cycles lvls) c
+         (gm_obj_history (amg_sp npre npost ncycle pre_cycles lvls) hist (ws0, scr0))) =
+  fst (gm_obj_call (amg_sp npre npost ncycle pre_cycles lvls) c (wsf, scrf)).
+Proof. exact (make_solver_amg_gmres_reuse npre npost ncycle pre_cycles lvls M hist c ws0 wsf scr0 scrf). Qed.
+Theorem C15_make_solver_reuse_fgmres (S : Scalar) npre npost ncycle pre_cycles (lvls : list (@level S)) M (hist : list (@kcall S))
+  (c : @kcall S) (ws0 wsf : gm_ws) (scr0 scrf : list (@scratch S)) :
+  is_zero (@s0 S) = true -> hier_wf lvls -> lvls <> [] ->
+  Forall (gm_call_ok (top_n lvls) M) hist -> gm_call_ok (top_n lvls) M c ->
+  fg_sized (top_n lvls) M ws0 -> scratch_wf lvls scr0 -> fg_sized (top_n lvls) M wsf -> scratch_wf lvls scrf ->
+  fst (fg_obj_call (amg_sp npre npost ncycle pre_cycles lvls) c
+         (fg_obj_history (amg_sp npre npost ncycle pre_cycles lvls) hist (ws0, scr0))) =
+  fst (fg_obj_call (amg_sp npre npost ncycle pre_cycles lvls) c (wsf, scrf)).
+Proof. exact (make_solver_amg_fgmres_reuse npre npost ncycle pre_cycles lvls M hist c ws0 wsf scr0 scrf). Qed.
+Print Assumptions C15_make_solver_reuse_fgmres.
+
+(* for the hierarchy built by amg_init from a matrix (modelled smoothers, exact coarse solve) the structural
+   hypotheses hold by construction; closed at Qc *)
+Theorem C15_make_solver_reuse_built (S : Scalar) (Z : is_zero (@s0 S) = true) ce dc ml sc ts (M : crs S) k
+  npre npost ncycle pre_cycles :
+  let lvls := std_levels k (amg_init ce dc ml (coarse_op_of sc) ts M) in
+  forall (hist : list (@kcall S)) (c : @kcall S) (ws0 wsf : cg_ws) (scr0 scrf : list (@scratch S)),
+  Forall (call_ok (nrows M)) hist -> call_ok (nrows M) c ->
+  cg_sized (nrows M) ws0 -> scratch_wf lvls scr0 -> cg_sized (nrows M) wsf -> scratch_wf lvls scrf ->
+  fst (cg_obj_call (amg_sp npre npost ncycle pre_cycles lvls) c
+         (cg_obj_history (amg_sp npre npost ncycle pre_cycles lvls) hist (ws0, scr0))) =
+  fst (cg_obj_call (amg_sp npre npost ncycle pre_cycles lvls) c (wsf, scrf)).
+Proof. exact (make_solver_built_amg_cg_reuse Z ce dc ml sc ts M k npre npost ncycle pre_cycles). Qed.
+Print Assumptions C15_make_solver_reuse_built.
+
+Theorem C15_make_solver_reuse_built_Qc ce dc ml sc ts (M : crs QcS) k npre npost ncycle pre_cycles :
+  let lvls := std_levels k (amg_init ce dc ml (coarse_op_of sc) ts M) in
+  forall (hist : list (@kcall QcS)) (c : @kcall QcS) (ws0 wsf : cg_ws) (scr0 scrf : list (@scratch QcS)),
+  Forall (call_ok (nrows M)) hist -> call_ok (nrows M) c ->
+  cg_sized (nrows M) ws0 -> scratch_wf lvls scr0 -> cg_sized (nrows M) wsf -> scratch_wf lvls scrf ->
+  fst (cg_obj_call (amg_sp npre npost ncycle pre_cycles lvls) c
+         (cg_obj_history (amg_sp npre npost ncycle pre_cycles lvls) hist (ws0, scr0))) =
+  fst (cg_obj_call (amg_sp npre npost ncycle pre_cycles lvls) c (wsf, scrf)).
+Proof. exact (make_solver_built_amg_cg_reuse (S := QcS) eq_refl ce dc ml sc ts M k npre npost ncycle pre_cycles). Qed.
+Print Assumptions C15_make_solver_reuse_built_Qc.
+
+(* non-vacuity (ReuseProofs4.v, data of AmgExampleData.v): make_solver<amg, cg> over Qc, 3-level hierarchy of the 1D
+   Laplacian n = 4 (damped Jacobi, direct coarse solve); the hypotheses of C15_make_solver_reuse hold, and the call
+   after two earlier solves on a junk-filled object performs 2 CG iterations and returns the fresh object's iterate *)
+From Amgcl Require Import AmgExampleData AmgExamples.
+Example C15_make_solver_reuse_hypotheses_satisfiable :
+  hier_wf exLvls /\ exLvls <> [] /\ top_n exLvls = 4 /\
+  Forall (call_ok 4) [exCall15 exG exF; exCall15 exF exG] /\ call_ok 4 (exCall15 exF exZ15) /\
+  cg_sized 4 exJunkWs15 /\ scratch_wf exLvls exDirty /\ cg_sized 4 exFreshWs15 /\ scratch_wf exLvls exScr0.
+Proof. exact ex15_hypotheses. Qed.
+Example C15_make_solver_reuse_concrete :
+  match fst (cg_obj_call exSp15 (exCall15 exF exZ15)
+               (cg_obj_history exSp15 [exCall15 exG exF; exCall15 exF exG] (exJunkWs15, exDirty))),
+        fst (cg_obj_call exSp15 (exCall15 exF exZ15) (exFreshWs15, exScr0)) with
+  | KOk r1, KOk r2 => k_it r1 = 2 /\ k_it r2 = 2 /\ vec_eqb (k_x r1) (k_x r2) = true /\ vec_eqb (k_x r1) exZ15 = false
+  | _, _ => False
+  end.
+Proof. exact ex15_concrete. Qed.
